@@ -102,6 +102,7 @@ def check(tier, seed):
     with C.WorkDir('C06') as wd:
         C.audit_sources()
         C.props_obligations(res, 'C06', wd)
+        C.tie_b_request(res, wd)
         a0_ = list(res.assumption_lines)
         C.props_obligations(res, 'C06b', wd)
         res.assumption_lines = a0_ + res.assumption_lines
